@@ -147,7 +147,7 @@ fn well_formed(apts: &[Apt]) -> Vec<WellFormed> {
                         spec: format!("{scheme}{hp}{r}"),
                         expect: Address::Tcp(AddressPath::Short(hp.clone())),
                         // (the optional jump host of the long form is how to get there, not where: same endpoint)
-                        tables: vec![format!("tcp = \"{hp}\""), format!("tcp = {{ address = \"{h}\", port = {p} }}"), format!("tcp = {{ address = \"{h}\", port = {p}, jump = \"gateway.example\" }}")],
+                        tables: vec![format!("tcp = \"{hp}\""), format!("tcp = {{ address = \"{h}\", port = {p} }}"), format!("tcp = {{ address = \"{h}\", port = {p}, jump = \"gateway.example\" }}"), format!("name = \"alias\"\ntcp = {{ address = \"{h}\", port = {p} }}")],
                         reference: *pos,
                     });
                 }
@@ -155,12 +155,12 @@ fn well_formed(apts: &[Apt]) -> Vec<WellFormed> {
                 if h.chars().any(|c| c.is_ascii_uppercase()) {
                     continue;
                 }
-                for path in ["/", "/get", "/a/b", "/4003"] {
+                for path in ["/", "/get", "/a/b", "/4003", "/radarcape/", "/a/b/"] {
                     let url = format!("ws://{hp}{path}");
                     v.push(WellFormed {
                         spec: format!("{url}{r}"),
                         expect: Address::Websocket(WebsocketPath::Short(url.clone())),
-                        tables: vec![format!("websocket = \"{url}\""), format!("websocket = {{ url = \"{url}\" }}"), format!("websocket = {{ url = \"{url}\", jump = \"gateway.example\" }}")],
+                        tables: vec![format!("websocket = \"{url}\""), format!("websocket = {{ url = \"{url}\" }}"), format!("websocket = {{ url = \"{url}\", jump = \"gateway.example\" }}"), format!("name = \"alias\"\nwebsocket = \"{url}\"")],
                         reference: *pos,
                     });
                 }
